@@ -12,6 +12,7 @@ CONSTANTS Comp = "hub_pro"
   NBuf = 2
   Gaps <- G_31
   Strict = FALSE
+  Busy = FALSE
   D = 2
 INIT Init
 NEXT Next
